@@ -428,6 +428,12 @@ class MetaFile:
             self.outfile = self.outfile + (self.name + ".torrent")
         self.meta = self.sort_meta()
         try:
+            # the metafile is always a new file of its own: whatever already
+            # sits at the output path (an earlier metafile that may have other
+            # hard links, a symbolic link) is replaced, never written through
+            if os.path.lexists(self.outfile) and not os.path.isdir(
+                    self.outfile):
+                os.remove(self.outfile)
             pyben.dump(self.meta, self.outfile)
         except PermissionError as excp:
             logger.error("Permission Denied: Could not write to %s",
